@@ -1,7 +1,7 @@
 """Drivers and process state: R-FRAMEFILE (+ONCE, DISPATCH), R-SPLITARITH, R-STATE."""
 import ast
 
-from ..core import (AnalysisError, path, unparse, norm_test, facts_at, walk_own, split_assumes,
+from ..core import (AnalysisError, Unrecognised, path, unparse, norm_test, facts_at, walk_own, split_assumes,
                     const_str, root_name, no_kill_between)
 from ..events import name_defs, single_def, data_events, fresh_paths
 from ..report import Ob
@@ -93,7 +93,7 @@ def r_framefile(prog, tier):
                           (w.lineno, 'preamble before' if what == 'begin' else 'suffix after') + ' its trees', ok, why,
                           construct='frame:%s:%d' % (what, regions), line=w.lineno))
     if regions < 2:
-        raise AnalysisError('transform.run: %d output regions with a per-tree writer call (2 expected)' % regions)
+        raise Unrecognised('transform.run: %d output regions with a per-tree writer call (2 expected)' % regions)
     # ---- ONCE: the split branch hands every tree out exactly once, in order
     iters = [n for n in cfg.eval_nodes() if n.kind == 'stmt' and isinstance(n.ast, ast.Assign)
              and isinstance(n.ast.value, ast.Call) and unparse(n.ast.value.func) == 'iter']
@@ -101,7 +101,7 @@ def r_framefile(prog, tier):
              and isinstance(n.ast.value, ast.Call)
              and prog.callee(n.ast.value, f) == ('treeoutput', 'parse_split_specification')]
     if len(specs) != 1:
-        raise AnalysisError('transform.run: %d calls of parse_split_specification' % len(specs))
+        raise Unrecognised('transform.run: %d calls of parse_split_specification' % len(specs))
     sp = specs[0]
     size_arg = sp.ast.value.args[1] if len(sp.ast.value.args) > 1 else None
     L = None
@@ -137,7 +137,7 @@ def r_framefile(prog, tier):
                         if d and d[0] == 'treeoutput' and d[1] == '':
                             wr_split = (n, sub)
     if wr_split is None:
-        raise AnalysisError('transform.run: no writer call in the split branch')
+        raise Unrecognised('transform.run: no writer call in the split branch')
     wn, wcall = wr_split
     a0 = wcall.args[0]
     if isinstance(a0, ast.Call) and unparse(a0.func) == 'next' and isinstance(a0.args[0], ast.Name):
@@ -172,7 +172,7 @@ def r_framefile(prog, tier):
         if n.kind == 'iter' and unparse(n.ast.iter) == 'args.trans':
             tl.append(n)
     if len(tl) != 2:
-        raise AnalysisError('transform.run: %d loops over args.trans (2 expected)' % len(tl))
+        raise Unrecognised('transform.run: %d loops over args.trans (2 expected)' % len(tl))
     norm = []
     for n in tl:
         alg = unparse(n.ast.target)
@@ -375,7 +375,7 @@ def r_splitarith(prog, tier):
     # the list returned
     rets = [n for n in walk_own(f.node) if isinstance(n, ast.Return)]
     if len(rets) != 1 or not isinstance(rets[0].value, ast.Name):
-        raise AnalysisError('parse_split_specification does not return a single list name')
+        raise Unrecognised('parse_split_specification does not return a single list name')
     P = rets[0].value.id
     nstores = 0
     for n in cfg.eval_nodes():
@@ -436,7 +436,7 @@ def r_splitarith(prog, tier):
                           'on ties', okf, 'index %s' % idx if okf else 'remainder added at `%s`, not at %s.index(max(%s))'
                           % (idx, P, P), construct='split-remainder:' + idx, line=n.lineno))
     if nstores < 4:
-        raise AnalysisError('parse_split_specification: %d stores into the part list (at least 4 expected)' % nstores)
+        raise Unrecognised('parse_split_specification: %d stores into the part list (at least 4 expected)' % nstores)
     raises = [n for n in cfg.eval_nodes() if n.kind == 'stmt' and isinstance(n.ast, ast.Raise)]
     for r in raises:
         ok = r.ast.exc is not None and unparse(r.ast.exc).startswith('ValueError(')
@@ -576,7 +576,7 @@ def r_state(prog, tier):
         # a statement is inside the reload block iff it cannot be reached when the freshness test is false
         fb = cfg.branch.get(fresh_test.id, {}).get(False)
         if fb is None:
-            raise AnalysisError('%s: freshness test has no else path' % f.fq)
+            raise Unrecognised('%s: freshness test has no else path' % f.fq)
         reach_false = cfg.reach(fb) | {fb}
         from ..core import MUTATORS
         for n in cfg.eval_nodes():
